@@ -794,7 +794,37 @@ func validPairs(args []sx.Sexp) bool {
 	return ok
 }
 
-func hashUniverse(steps []sx.Sexp) ([]sx.Sexp, bool) {
+// goMapPairs: steps of the `ehash` op (emitted as `@ehash`), which the model does not have: hashes built from Go maps
+func goMapPairs(implOnly bool, op string, a []sx.Sexp) bool {
+	if !implOnly || !validPairs(a) {
+		return false
+	}
+	for _, p := range a {
+		if p.List[0].IsList || isIntAtom(p.List[0]) {
+			return false
+		}
+		if op == "gomaps" && (p.List[1].IsList || isIntAtom(p.List[1])) {
+			return false
+		}
+	}
+	return true
+}
+
+func goValue(e sx.Sexp) interface{} {
+	if !e.IsList {
+		if isIntAtom(e) {
+			return e.MustInt()
+		}
+		return e.MustStr()
+	}
+	vs := []interface{}{}
+	for _, x := range e.Args() {
+		vs = append(vs, goValue(x))
+	}
+	return vs
+}
+
+func hashUniverse(steps []sx.Sexp, implOnly bool) ([]sx.Sexp, bool) {
 	uni := []sx.Sexp{}
 	seen := map[string]bool{}
 	add := func(k sx.Sexp) bool {
@@ -819,6 +849,13 @@ func hashUniverse(steps []sx.Sexp) ([]sx.Sexp, bool) {
 		switch st.Tag() {
 		case "wrap", "parse", "parsea", "build":
 			if !validPairs(a) {
+				return nil, false
+			}
+			for _, p := range a {
+				add(p.List[0])
+			}
+		case "gomapv", "gomapi", "gomaps":
+			if !goMapPairs(implOnly, st.Tag(), a) {
 				return nil, false
 			}
 			for _, p := range a {
@@ -897,8 +934,8 @@ func entriesOf(args []sx.Sexp) []*types.HashEntry {
 	return es
 }
 
-func execHash(steps []sx.Sexp) core.Result {
-	uni, ok := hashUniverse(steps)
+func execHash(steps []sx.Sexp, implOnly bool) core.Result {
+	uni, ok := hashUniverse(steps, implOnly)
 	if !ok {
 		return core.Result{Out: "bad-op", Pred: "n/a"}
 	}
@@ -976,6 +1013,54 @@ func execHash(steps []sx.Sexp) core.Result {
 				if len(r.keys) > 0 {
 					changed = true
 				}
+			}
+		case "gomapv", "gomapi", "gomaps":
+			// a Go map holds one value per key (the last written); the hash lists the keys in ascending order
+			ps, _ := pairsOf(a)
+			last := map[string]pair{}
+			raw := map[string]sx.Sexp{}
+			for i, p := range ps {
+				k := a[i].List[0].MustStr()
+				last[k] = p
+				raw[k] = a[i].List[1]
+			}
+			names := []string{}
+			for k := range last {
+				names = append(names, k)
+			}
+			sort.Strings(names)
+			r := newRef()
+			for _, k := range names {
+				r.put(last[k].k, last[k].v)
+			}
+			var h px.OrderedMap
+			fault = safely(func() {
+				switch op {
+				case "gomapv":
+					m := map[string]px.Value{}
+					for k, e := range raw {
+						m[k] = valOf(e)
+					}
+					h = types.WrapStringToValueMap(m)
+				case "gomapi":
+					m := map[string]interface{}{}
+					for k, e := range raw {
+						m[k] = goValue(e)
+					}
+					h = types.WrapStringToInterfaceMap(px.CurrentContext(), m)
+				default:
+					m := map[string]string{}
+					for k, e := range raw {
+						m[k] = e.MustStr()
+					}
+					h = types.WrapStringToStringMap(m)
+				}
+			})
+			if h != nil {
+				made = &hslot{h: h, ref: r}
+				pool = append(pool, made)
+				failClass = "literal-wrong"
+				changed = changed || len(r.keys) > 0
 			}
 		case "mnew":
 			m := types.NewMutableHash()
@@ -1358,7 +1443,110 @@ func hashClass(exp, got *obs, opClass string) string {
 
 // ==== Array ==============================================================================================================
 
-func arrStr(l px.List) string { return show(l.(px.Value)) }
+func arrStr(l px.List) string {
+	if he, ok := l.(*types.HashEntry); ok { // an entry is the sequence of its key and its value
+		return "(a " + show(he.Key()) + " " + show(he.Value()) + ")"
+	}
+	return show(l.(px.Value))
+}
+
+func unsupported(fault interface{}) bool {
+	return fault != nil && strings.Contains(fmt.Sprint(fault), "Operation not supported")
+}
+
+// entryReads: every read-only query of a hash entry answers as the two-element sequence of its key and value
+func entryReads(he *types.HashEntry, ref []string, fs *failures, si int, st sx.Sexp) {
+	bad := func(what, got, exp string) {
+		fs.add("entry-read", "step %d %s: entry %s %s answers %s, the sequence answers %s", si, st, arrStr(he), what, got, exp)
+	}
+	join := func(vs []string) string { return strings.Join(vs, " ") }
+	if e := safely(func() {
+		if he.Len() != 2 || he.IsEmpty() {
+			bad("Len/IsEmpty", fmt.Sprint(he.Len(), he.IsEmpty()), "2 false")
+		}
+		got := []string{}
+		he.Each(func(v px.Value) { got = append(got, show(v)) })
+		if join(got) != join(ref) {
+			bad("Each", join(got), join(ref))
+		}
+		got = []string{}
+		he.EachWithIndex(func(v px.Value, i int) { got = append(got, strconv.Itoa(i)+":"+show(v)) })
+		if join(got) != "0:"+ref[0]+" 1:"+ref[1] {
+			bad("EachWithIndex", join(got), "0:"+ref[0]+" 1:"+ref[1])
+		}
+		got = []string{}
+		for _, v := range he.AppendTo([]px.Value{types.WrapInteger(77)}) {
+			got = append(got, show(v))
+		}
+		if join(got) != "77 "+join(ref) {
+			bad("AppendTo", join(got), "77 "+join(ref))
+		}
+		if a := arrStr(he.AsArray()); a != arrStr(he) {
+			bad("AsArray", a, arrStr(he))
+		}
+		for i := -1; i <= 2; i++ {
+			exp := "_"
+			if i >= 0 && i < 2 {
+				exp = ref[i]
+			}
+			if g := show(he.At(i)); g != exp {
+				bad("At "+strconv.Itoa(i), g, exp)
+			}
+		}
+		for pi, pred := range []func(string) bool{func(x string) bool { return x == ref[0] }, func(x string) bool { return x == ref[1] },
+			func(string) bool { return true }, func(string) bool { return false }} {
+			p := func(v px.Value) bool { return pred(show(v)) }
+			sel, rej, all, any, found := []string{}, []string{}, true, false, "_"
+			for _, x := range ref {
+				if pred(x) {
+					sel = append(sel, x)
+					any = true
+					if found == "_" {
+						found = x
+					}
+				} else {
+					rej = append(rej, x)
+					all = false
+				}
+			}
+			name := "pred" + strconv.Itoa(pi)
+			if g := strings.TrimSuffix(strings.TrimPrefix(arrStr(he.Select(p)), "(a"), ")"); strings.TrimSpace(g) != join(sel) {
+				bad("Select "+name, g, join(sel))
+			}
+			if g := strings.TrimSuffix(strings.TrimPrefix(arrStr(he.Reject(p)), "(a"), ")"); strings.TrimSpace(g) != join(rej) {
+				bad("Reject "+name, g, join(rej))
+			}
+			if he.All(p) != all || he.Any(p) != any {
+				bad("All/Any "+name, fmt.Sprint(he.All(p), he.Any(p)), fmt.Sprint(all, any))
+			}
+			g := "_"
+			if v, ok := he.Find(p); ok {
+				g = show(v)
+			}
+			if g != found {
+				bad("Find "+name, g, found)
+			}
+		}
+		m := he.Map(func(v px.Value) px.Value { return types.WrapValues([]px.Value{v}) })
+		if g, exp := arrStr(m), "(a (a "+ref[0]+") (a "+ref[1]+"))"; g != exp {
+			bad("Map", g, exp)
+		}
+		pairUp := func(x, y px.Value) px.Value { return types.WrapValues([]px.Value{x, y}) }
+		if g, exp := show(he.Reduce2(types.WrapInteger(77), pairUp)), "(a (a 77 "+ref[0]+") "+ref[1]+")"; g != exp {
+			bad("Reduce2", g, exp)
+		}
+		if g, exp := show(he.Reduce(pairUp)), "(a "+ref[0]+" "+ref[1]+")"; g != exp {
+			bad("Reduce", g, exp)
+		}
+		// equal to, and keyed as, the array of the same two elements — in both directions
+		arr := he.AsArray().(px.Value)
+		if !he.Equals(arr, nil) || !arr.Equals(he, nil) || string(px.ToKey(he)) != string(px.ToKey(arr)) {
+			bad("Equals/ToKey", "differs from its array", "same")
+		}
+	}); e != nil {
+		fs.add("entry-fault", "step %d %s: runtime fault in a read of entry %s: %v", si, st, arrStr(he), e)
+	}
+}
 
 // flattenTexts: the reference of Flatten on canonical texts (an array text is `(a …)`)
 func flattenTexts(vs []string) []string {
@@ -1381,7 +1569,7 @@ func flattenTexts(vs []string) []string {
 	return out
 }
 
-func execArr(steps []sx.Sexp) core.Result {
+func execArr(steps []sx.Sexp, implOnly bool) core.Result {
 	type aslot struct {
 		a    px.List
 		ref  []string
@@ -1397,6 +1585,13 @@ func execArr(steps []sx.Sexp) core.Result {
 		ok := true
 		switch st.Tag() {
 		case "lit":
+			for _, v := range a {
+				if _, o := valStr(v); !o {
+					ok = false
+				}
+			}
+		case "entry": // a hash entry as a list (implementation-only lines: the model has arrays only)
+			ok = implOnly && len(a) == 2
 			for _, v := range a {
 				if _, o := valStr(v); !o {
 					ok = false
@@ -1459,6 +1654,11 @@ func execArr(steps []sx.Sexp) core.Result {
 			}
 			mk(types.WrapValues(vs), r)
 			changed = changed || len(vs) > 0
+		case "entry":
+			k, _ := valStr(a[0])
+			v, _ := valStr(a[1])
+			mk(types.WrapHashEntry(valOf(a[0]), valOf(a[1])), []string{k, v})
+			changed = true
 		case "add":
 			s := slot(0)
 			if s == nil {
@@ -1564,7 +1764,14 @@ func execArr(steps []sx.Sexp) core.Result {
 				break
 			}
 			var l px.List
-			fault = safely(func() { l = s.a.(px.SortableList).Sort(func(x, y px.Value) bool { return show(x) < show(y) }) })
+			sl, sortable := s.a.(px.SortableList)
+			if !sortable {
+				if _, isEntry := s.a.(*types.HashEntry); isEntry {
+					res = op + "=unsupported"
+					break
+				}
+			}
+			fault = safely(func() { l = sl.Sort(func(x, y px.Value) bool { return show(x) < show(y) }) })
 			if fault == nil {
 				r := append([]string{}, s.ref...)
 				sort.Strings(r)
@@ -1627,7 +1834,7 @@ func execArr(steps []sx.Sexp) core.Result {
 			}
 			n := int(a[1].MustInt())
 			chunks := []string{}
-			e := safely(func() { s.a.EachSlice(n, func(c px.List) { chunks = append(chunks, show(c.(px.Value))) }) })
+			e := safely(func() { s.a.EachSlice(n, func(c px.List) { chunks = append(chunks, arrStr(c)) }) })
 			exp := []string{}
 			if n >= 1 {
 				for i := 0; i < len(s.ref); i += n {
@@ -1667,10 +1874,23 @@ func execArr(steps []sx.Sexp) core.Result {
 				fs.add("arr-at", "step %d %s: impl %s reference %s", si, st, res, exp)
 			}
 		}
+		if unsupported(fault) && len(a) > 0 && isIntAtom(a[0]) {
+			if s := slot(0); s != nil {
+				if _, isEntry := s.a.(*types.HashEntry); isEntry { // an entry offers no growing or shrinking: declined, not wrong
+					fault = nil
+					res = op + "=unsupported"
+				}
+			}
+		}
 		if fault != nil {
 			out = append(out, res+"=fault")
 			fs.add("arr-fault", "step %d %s: runtime fault %v", si, st, fault)
 			break
+		}
+		for _, s := range pool {
+			if he, isEntry := s.a.(*types.HashEntry); isEntry && len(s.ref) == 2 {
+				entryReads(he, s.ref, &fs, si, st)
+			}
 		}
 		if made == nil {
 			out = append(out, res)
@@ -1718,9 +1938,13 @@ func exec(c px.Context, op string, args []sx.Sexp) core.Result {
 	case "sh":
 		return execSH(args)
 	case "hash":
-		return execHash(args)
+		return execHash(args, false)
+	case "ehash": // emitted as `@ehash`: implementation-only
+		return execHash(args, true)
 	case "arr":
-		return execArr(args)
+		return execArr(args, false)
+	case "earr": // emitted as `@earr`: implementation-only
+		return execArr(args, true)
 	}
 	return core.Result{Out: "bad-op", Pred: "FAIL harness-bad-op " + op}
 }
@@ -1941,6 +2165,58 @@ func randHash(r *rand.Rand, n int, dups bool, mutable bool) string {
 	return "hash " + strings.Join(ops, " ")
 }
 
+// randEntryArr: a history over arrays and hash entries (entries as receivers and as arguments)
+func randEntryArr(r *rand.Rand, n int) string {
+	l := randArr(r, n)
+	steps, err := sx.Parse("(" + strings.TrimPrefix(l, "arr ") + ")")
+	if err != nil {
+		panic(err)
+	}
+	out := []string{}
+	for i, st := range steps[0].List {
+		if st.Tag() == "lit" && (i == 0 || r.Intn(2) == 0) {
+			k, v := randHKey(r), randHKey(r)
+			if r.Intn(4) == 0 {
+				v = k
+			}
+			out = append(out, "(entry "+k+" "+v+")")
+			continue
+		}
+		out = append(out, st.String())
+	}
+	return "@earr " + strings.Join(out, " ")
+}
+
+// randGoMapHash: a hash history whose literals come from Go maps
+func randGoMapHash(r *rand.Rand, n int) string {
+	l := randHash(r, n, false, false)
+	steps, err := sx.Parse("(" + strings.TrimPrefix(l, "hash ") + ")")
+	if err != nil {
+		panic(err)
+	}
+	out := []string{}
+	for i, st := range steps[0].List {
+		switch st.Tag() {
+		case "wrap", "parse", "parsea", "build":
+			if i == 0 || r.Intn(3) > 0 {
+				ctor := []string{"gomapv", "gomapi", "gomaps"}[r.Intn(3)]
+				ps := []string{}
+				for j := r.Intn(5); j > 0; j-- {
+					v := randHVal(r)
+					if ctor == "gomaps" {
+						v = randKey(r)
+					}
+					ps = append(ps, "("+randKey(r)+" "+v+")")
+				}
+				out = append(out, "("+ctor+" "+strings.Join(ps, " ")+")")
+				continue
+			}
+		}
+		out = append(out, st.String())
+	}
+	return "@ehash " + strings.Join(out, " ")
+}
+
 func randArr(r *rand.Rand, n int) string {
 	vals := func() string {
 		vs := []string{}
@@ -2082,6 +2358,12 @@ func gen(g *core.G) {
 	}
 	for i := 0; i < 800*g.Scale; i++ {
 		g.Emit(randArr(g.Rng, 3+g.Rng.Intn(10)))
+	}
+	for i := 0; i < 600*g.Scale; i++ {
+		g.Emit(randEntryArr(g.Rng, 3+g.Rng.Intn(10)))
+	}
+	for i := 0; i < 600*g.Scale; i++ {
+		g.Emit(randGoMapHash(g.Rng, 2+g.Rng.Intn(8)))
 	}
 	// 3. malformed stream (outside the quantifier; both sides must still agree)
 	for _, l := range []string{"sh (put a 1)", "sh (frobnicate)", "sh (put x61)", "hash (wrap (1))", "hash (put x 1 2)", "hash (delete 0)",
